@@ -39,7 +39,7 @@ class LagMode(vlib.Mode):
     def gen_case(self, rng):
         now = 1000000 + rng.randrange(5000)
         buf = rng.choice([4, 16, 64, 256])
-        ta, tb = rng.choice([("t1", "t1x"), ("t1", "t2"), ("t1x", "t1"), ("stats", "t1"), ("t1", "stats")])
+        ta, tb = rng.choice([("t1", "t1x"), ("t1", "t2"), ("t1x", "t1"), ("stats", "t1"), ("t1", "stats"), ("T1", "t1"), ("t1", "T1"), ("Stats", "stats")])
         case = [f"config 0 {buf}", f"now {now}"]
         conns = []          # (topic, scopes)
         def join(topic, scopes):
